@@ -762,6 +762,31 @@ func buildOps() []op {
 	withDoc("BuildLogoutResponseBodyPostFromDocument", lrespDoc, func(sp *saml2.SAMLServiceProvider, d *etree.Document) string {
 		return projBody(sp.BuildLogoutResponseBodyPostFromDocument("rs", d))
 	})
+	// the same with documents that carry the library's enveloped signature (what Build*Document returns): applications hand
+	// one document to the redirect builder AND to the POST builder
+	lreqDocSigned := func(sp *saml2.SAMLServiceProvider) (*etree.Document, error) {
+		return sp.BuildLogoutRequestDocument("alice@example.com", "_s1")
+	}
+	lrespDocSigned := func(sp *saml2.SAMLServiceProvider) (*etree.Document, error) {
+		return sp.BuildLogoutResponseDocument(okCode, "_q1")
+	}
+	withDoc("BuildLogoutURLRedirect(signed document)", lreqDocSigned, func(sp *saml2.SAMLServiceProvider, d *etree.Document) string {
+		projURL(sp.BuildLogoutURLRedirect("rs", d))
+		return "ok" // the embedded signature value differs from call to call for non-deterministic signers: only purity is checked
+	})
+	withDoc("BuildLogoutBodyPostFromDocument(signed document)", lreqDocSigned, func(sp *saml2.SAMLServiceProvider, d *etree.Document) string {
+		projBody(sp.BuildLogoutBodyPostFromDocument("rs", d))
+		return "ok"
+	})
+	withDoc("BuildLogoutResponseBodyPostFromDocument(signed document)", lrespDocSigned, func(sp *saml2.SAMLServiceProvider, d *etree.Document) string {
+		projBody(sp.BuildLogoutResponseBodyPostFromDocument("rs", d))
+		return "ok"
+	})
+	withDoc("BuildAuthURLRedirect(document from BuildAuthRequestDocument)", func(sp *saml2.SAMLServiceProvider) (*etree.Document, error) { return sp.BuildAuthRequestDocument() },
+		func(sp *saml2.SAMLServiceProvider, d *etree.Document) string {
+			projURL(sp.BuildAuthURLRedirect("rs", d))
+			return "ok"
+		})
 	// signing a fixed element: fully deterministic for RSA keys (PKCS#1 v1.5), so nothing is projected away there
 	for _, s := range []struct {
 		name string
